@@ -303,6 +303,22 @@ def external_conflicts(path, seedstr):
                         extra.append(BasePair(Residue(r1.label, r1.auth), p.nt2, p.lw, p.saenger))
                     elif (p.nt2.label, p.nt2.auth) == (r0.label, r0.auth):
                         extra.append(BasePair(p.nt1, Residue(r1.label, r1.auth), p.lw, p.saenger))
+    # chains whose names differ by letter case only: a nucleotide paired with a residue of chain A is also listed as
+    # paired with the equally numbered residue of chain a (and the other way round)
+    bycase = {}
+    for r in s.residues:
+        if r.auth is not None and r.is_nucleotide:
+            bycase.setdefault((r.auth.chain.lower(), r.auth.number, r.auth.icode), []).append(r)
+    if any(len(v) > 1 for v in bycase.values()):
+        from rnapolis.common import Residue
+
+        for p in rng.sample(canon, min(len(canon), 6)):
+            r2 = by3d.get((p.nt2.label, p.nt2.auth))
+            if r2 is None or r2.auth is None:
+                continue
+            for r in bycase.get((r2.auth.chain.lower(), r2.auth.number, r2.auth.icode), []):
+                if r is not r2:
+                    extra.append(BasePair(p.nt1, Residue(r.label, r.auth), p.lw, p.saenger))
     allp = pairs + extra
     rng.shuffle(allp)
     ext = BaseInteractions(allp, bi.stackings, bi.baseRiboseInteractions, bi.basePhosphateInteractions, bi.otherInteractions)
